@@ -8,14 +8,14 @@ See Also:
 
 from __future__ import annotations
 
+from base64 import b64encode
+
 __all__ = ['modutf7_encode', 'modutf7_decode']
 
 
 def _modified_b64encode(src: str) -> bytes:
-    # Inspired by Twisted Python's implementation:
-    #   https://twistedmatrix.com/trac/browser/trunk/LICENSE
-    src_utf7 = src.encode('utf-7')
-    return src_utf7[1:-1].replace(b'/', b',')
+    src_utf16 = src.encode('utf-16-be')
+    return b64encode(src_utf16, altchars=b'+,').rstrip(b'=')
 
 
 def _modified_b64decode(src: bytes) -> str:
@@ -37,6 +37,13 @@ def modutf7_encode(data: str) -> bytes:
     encode_start = None
     for i, symbol in enumerate(data):
         charpoint = ord(symbol)
+        if not is_usascii and 0x20 <= charpoint <= 0x7e:
+            to_encode = data[encode_start:i]
+            encoded = _modified_b64encode(to_encode)
+            ret.append(0x26)
+            ret.extend(encoded)
+            ret.append(0x2d)
+            is_usascii = True
         if is_usascii:
             if charpoint == 0x26:
                 ret.extend(b'&-')
@@ -45,14 +52,6 @@ def modutf7_encode(data: str) -> bytes:
             else:
                 encode_start = i
                 is_usascii = False
-        else:
-            if 0x20 <= charpoint <= 0x7e:
-                to_encode = data[encode_start:i]
-                encoded = _modified_b64encode(to_encode)
-                ret.append(0x26)
-                ret.extend(encoded)
-                ret.extend((0x2d, charpoint))
-                is_usascii = True
     if not is_usascii:
         to_encode = data[encode_start:]
         encoded = _modified_b64encode(to_encode)
